@@ -181,6 +181,9 @@ Catalogue(pt) == {
   Row("AS4_AGGREGATOR", "len",   D, W, {LenErr, OptErr, AttrList}),
   Row("AS4_AGGREGATOR", "flags", W, W, {FlagsErr}),
   Row("AS4_AGGREGATOR", "dup",   D, D, {AttrList}),
+  \* an AS4_AGGREGATOR that arrives WITHOUT an AGGREGATOR (all other AS4_AGGREGATOR cases carry
+  \* both): RFC 6793 3 / 4.2.3 - between NEW speakers the attribute is simply discarded; no error
+  Row("AS4_AGGREGATOR", "alone", None, None, {}),
 
   \* LARGE COMMUNITIES - RFC 8092 5: length not a non-zero multiple of 12 => treat-as-withdraw
   Row("LARGE_COMMUNITIES", "len",   W, W, {LenErr, OptErr}),
@@ -285,7 +288,7 @@ Impl(f, pt) ==
     [] a = "UNKNOWN" /\ k = "wk"                              -> M("val", ResetC)
     [] k \in {"val", "valm"} /\ a = "AS_PATH" /\ pt = "confed" -> M("val", ResetC)
     [] k \in {"val", "valm"}                                  -> M("val", Withdraw)
-    [] k = "zlen"                                             -> M("none", None)
+    [] k = "zlen" \/ k = "alone"                              -> M("none", None)
     [] k = "flags" \/ (a = "UNKNOWN" /\ k = "wk0")            -> M("dec", Withdraw)
     [] a \in {"MP_REACH", "MP_UNREACH"}                       -> M("dec", ResetC)
     [] a \in {"ATOMIC_AGGREGATE", "AGGREGATOR"}               -> M("dec", Discard)
@@ -296,24 +299,74 @@ ClsMax(S, pt) == MaxOf({Impl(f, pt).cls : f \in S} \cup {None})
 
 (* fixed = FALSE: recvMessageloop as it is (validation only when decoding was clean);
    fixed = TRUE : validation also after a discard / treat-as-withdraw decode error, stronger kept *)
+Has(fs, a, k) == [a |-> a, k |-> k] \in fs
+(* DecodeFromBytes returns as soon as an attribute runs over the Total Attribute Length: the NLRI
+   field behind it is never looked at *)
+StopsBeforeNlri(fs) == Has(fs, "ATTR", "overrun") \/ Has(fs, "TOTLEN", "short")
+FrameSeen(fs, pt) == {f \in StageOf(fs, pt, "frame") : ~(f.a = "NLRI" /\ StopsBeforeNlri(fs))}
+(* table.UpdatePathAggregator4ByteAs (called by recvMessageloop after validation): an AS4_AGGREGATOR
+   left without a decoded AGGREGATOR - sent alone, or the AGGREGATOR was discarded as malformed or
+   not decoded because of its flags - is answered with NOTIFICATION 3/1 *)
+As4AggAlone(fs) ==
+  /\ \E f \in fs : f.a = "AS4_AGGREGATOR"
+  /\ (Has(fs, "AS4_AGGREGATOR", "alone") \/ Has(fs, "AGGREGATOR", "len") \/ Has(fs, "AGGREGATOR", "flags"))
 MechClass(fs, pt, taw, fixed) ==
   LET dc  == ClsMax(StageOf(fs, pt, "dec"), pt)
       vc  == ClsMax(StageOf(fs, pt, "val"), pt)
-      raw == IF StageOf(fs, pt, "frame") # {} \/ dc = ResetC THEN ResetC
+      raw == IF FrameSeen(fs, pt) # {} \/ dc = ResetC THEN ResetC
              ELSE IF dc = None \/ fixed THEN MaxOf({dc, vc})
              ELSE dc
-  IN IF raw # None /\ ~taw THEN ResetC ELSE raw
+  IN IF raw # None /\ ~taw THEN ResetC
+     ELSE IF As4AggAlone(fs) THEN ResetC
+     ELSE raw
 
 ---------------------------------------------------------------------------
-(* KNOWN FINDING predicates (see findings_proposed/C06-*.md, known_findings.jsonl) *)
+(* KNOWN FINDING predicates: each identifies, FROM THE INPUTS ONLY, the messages on which the
+   pinned speaker is known to deviate (findings_proposed/C06-*.md, known_findings.jsonl), and what
+   the weakened invariants of the trace spec then stop demanding. *)
 
 (* KF-C06-discard-masks-validation: a decode-stage error of class discard / treat-as-withdraw makes
    recvMessageloop skip ValidateUpdateMsg, so every validation-stage fault of the same message goes
    unnoticed.  Only possible with revised error handling on (off: the decode error resets). *)
 Masked(fs, pt, taw) ==
   /\ taw
-  /\ StageOf(fs, pt, "frame") = {}
+  /\ FrameSeen(fs, pt) = {}
   /\ ClsMax(StageOf(fs, pt, "dec"), pt) \in {Discard, Withdraw}
   /\ StageOf(fs, pt, "val") # {}
-Unmasked(fs, pt, taw) == IF Masked(fs, pt, taw) THEN fs \ StageOf(fs, pt, "val") ELSE fs
+(* KF-C06-ibgp-local-pref-not-mandatory: ValidateUpdateMsg never asks for LOCAL_PREF *)
+KF_LocalPref(fs) == Has(fs, "LOCAL_PREF", "miss")
+(* KF-C06-zero-length-list-attribute: zero-length COMMUNITIES / CLUSTER_LIST / EXTENDED COMMUNITIES /
+   LARGE COMMUNITIES pass the "multiple of n" length test and are installed *)
+KF_ZeroLen(fs) == \E f \in fs : f.k = "zlen"
+(* KF-C06-withdraw-without-nlri: treat-as-withdraw is chosen although the prefixes were not parsed
+   (MP_REACH / MP_UNREACH with wrong flags are not decoded; DecodeFromBytes returns at an attribute
+   overrun before the NLRI field), so the routes of those prefixes stay *)
+KF_Unparsed(fs) == Has(fs, "MP_REACH", "flags") \/ Has(fs, "MP_UNREACH", "flags") \/ StopsBeforeNlri(fs)
+UnparsedPfx(fs, base) ==
+  (IF Has(fs, "MP_REACH", "flags") THEN {p \in Ann(base) : ~IsV4(p)} ELSE {})
+  \cup (IF Has(fs, "MP_UNREACH", "flags") THEN {p \in Wd(base) : ~IsV4(p)} ELSE {})
+  \cup (IF Has(fs, "ATTR", "overrun") THEN {p \in Ann(base) : IsV4(p)} ELSE {})
+  \cup (IF Has(fs, "TOTLEN", "short") THEN (Ann(base) \cup Wd(base)) \ {"P3"} ELSE {})
+(* KF-C06-as4-aggregator-alone-resets: see As4AggAlone *)
+KF_As4Agg(fs) == As4AggAlone(fs)
+(* KF-C06-origin-length-subcode: a wrong ORIGIN length is reported as 3/1 (Malformed Attribute List)
+   instead of 3/5 (Attribute Length Error) *)
+KF_OriginCode(fs) == Has(fs, "ORIGIN", "len")
+
+(* the faults the pinned speaker is known not to act upon *)
+Ignored(fs, pt, taw) ==
+  (IF Masked(fs, pt, taw) THEN StageOf(fs, pt, "val") ELSE {})
+  \cup {f \in fs : f.k = "zlen" \/ (f.a = "LOCAL_PREF" /\ f.k = "miss")}
+  \cup (IF StopsBeforeNlri(fs) THEN {f \in fs : f.a = "NLRI"} ELSE {})
+  \* an MP_REACH / MP_UNREACH with wrong flags is not decoded any further (KF-C06-withdraw-without-nlri)
+  \cup {f \in fs : f.a \in {"MP_REACH", "MP_UNREACH"} /\ f.k # "flags" /\ Has(fs, f.a, "flags")}
+Unmasked(fs, pt, taw) == fs \ Ignored(fs, pt, taw)
+
+KFTags(fs, pt, taw) ==
+  (IF Masked(fs, pt, taw) THEN {"KF-C06-discard-masks-validation"} ELSE {})
+  \cup (IF KF_LocalPref(fs) THEN {"KF-C06-ibgp-local-pref-not-mandatory"} ELSE {})
+  \cup (IF KF_ZeroLen(fs) THEN {"KF-C06-zero-length-list-attribute"} ELSE {})
+  \cup (IF KF_Unparsed(fs) THEN {"KF-C06-withdraw-without-nlri"} ELSE {})
+  \cup (IF KF_As4Agg(fs) THEN {"KF-C06-as4-aggregator-alone-resets"} ELSE {})
+  \cup (IF KF_OriginCode(fs) THEN {"KF-C06-origin-length-subcode"} ELSE {})
 =============================================================================
